@@ -88,6 +88,7 @@ Section CfgInd.
   Hypothesis HBool : forall b, P (VBool b).
   Hypothesis HInt : forall z, P (VInt z).
   Hypothesis HFloat : forall q, P (VFloat q).
+  Hypothesis HNonFin : forall k, P (VNonFin k).
   Hypothesis HStr : forall s, P (VStr s).
   Hypothesis HList : forall l, Forall P l -> P (VList l).
   Hypothesis HTup : forall l, Forall P l -> P (VTup l).
@@ -101,6 +102,7 @@ Section CfgInd.
     | VBool b => HBool b
     | VInt z => HInt z
     | VFloat q => HFloat q
+    | VNonFin k => HNonFin k
     | VStr s => HStr s
     | VList l => HList l ((fix go (l : list cfg) : Forall P l :=
                              match l with [] => Forall_nil _ | x :: r => Forall_cons _ (cfg_ind' x) (go r) end) l)
@@ -150,6 +152,7 @@ Proof.
   - apply Bool.eqb_prop in E. subst. reflexivity.
   - apply Z.eqb_eq in E. subst. reflexivity.
   - apply q_eqb_eq in E. subst. reflexivity.
+  - destruct k, k0; simpl in E; try discriminate; reflexivity.
   - apply String.eqb_eq in E. subst. reflexivity.
   - f_equal. apply (list_eqb_go_eq l H l0 E).
   - f_equal. apply (list_eqb_go_eq l H l0 E).
